@@ -662,11 +662,15 @@ func exec(line string, st *hx.Stats) string {
 				a := askSplit(rg.cached) // contextual tuples, all caches on
 				// a request that was cancelled gave no answer (seen transiently with the iterator cache + shared
 				// iterators, also for requests without contextual tuples): ask again, report "CX" if it stays so
-				for rep := 0; rep < 3 && strings.Contains(a, "E:cancelled"); rep++ {
+				// (inside a BatchCheck the cancelled item is reported as internal_error: transformCheckCommandErrorToBatchCheckError)
+				cancelled := func(x string) bool {
+					return strings.Contains(x, "E:cancelled") || ((s.kind == "bat" || s.kind == "batm") && strings.Contains(x, "E:internal_error"))
+				}
+				for rep := 0; rep < 3 && cancelled(a); rep++ {
 					st.Inc("cached-side-cancelled")
 					a = askSplit(rg.cached)
 				}
-				if strings.Contains(a, "E:cancelled") {
+				if cancelled(a) {
 					a = "CX"
 				}
 				p := askSplit(rg.plain) // contextual tuples, no caches
